@@ -158,6 +158,22 @@ func normFact(f Fact) Fact {
 		t = t.Args[0]
 		f.Pol = !f.Pol
 	}
+	// comparison of a boolean with a literal (`switch flag { case true: … }`): the boolean itself
+	if t.Op == "bin" && (t.Name == "==" || t.Name == "!=") && len(t.Args) == 2 {
+		for i := 0; i < 2; i++ {
+			k := t.Args[i].String()
+			if k == "const:true" || k == "const:false" {
+				pol := f.Pol
+				if t.Name == "!=" {
+					pol = !pol
+				}
+				if k == "const:false" {
+					pol = !pol
+				}
+				return normFact(Fact{t.Args[1-i], pol})
+			}
+		}
+	}
 	if t.Op == "bin" {
 		op, a, b := t.Name, t.Args[0], t.Args[1]
 		switch op {
